@@ -4,7 +4,7 @@
 (* whitelist / parameter change through governance / block-time advance.     *)
 (* The same model, run with -simulate, emits behaviours (hist) as JSON that  *)
 (* the Go harness replays on the real application.                           *)
-EXTENDS Props, Json
+EXTENDS Genesis
 
 CONSTANTS MaxHeight,     \* blocks after the genesis block
           MaxTx,         \* transactions per behaviour
@@ -24,28 +24,9 @@ Gen == [accts |-> Accts,
         bcn |-> [feeReg |-> 20, feeRec |-> 1, feePur |-> 5, denom |-> "nund", def |-> 2, max |-> 4, startId |-> 1],
         str |-> [feeNum |-> 1, feeDen |-> 100]]
 
-\* the abstract state the real chain is in after InitChain(Gen) and its first (empty) block
-RegInit(g) == [p |-> [feeReg |-> g.feeReg, feeRec |-> g.feeRec, feePur |-> g.feePur, denom |-> g.denom, def |-> g.def, max |-> g.max],
-               next |-> g.startId, start |-> g.startId, ch |-> <<>>]
-StateOf(g) ==
-  [time |-> 0, height |-> 2, halted |-> FALSE,
-   bal |-> [a \in Range(g.accts) |-> g.bal[a]] @@ [x \in ModuleAccts |-> [nund |-> 0, other |-> 0]],
-   supply |-> [d \in Denoms |-> SumOver([a \in Range(g.accts) |-> g.bal[a][d]], Range(g.accts))],
-   ent |-> [p |-> [signers |-> g.ent.signers, min |-> g.ent.min, limit |-> g.ent.limit, denom |-> g.ent.denom],
-            next |-> g.ent.startId, start |-> g.ent.startId, po |-> <<>>, rq |-> <<>>, aq |-> <<>>,
-            wl |-> [a \in Range(g.accts) |-> Contains(g.ent.wl, a)], wlExtra |-> 0,
-            locked |-> [a \in Range(g.accts) |-> 0], spent |-> [a \in Range(g.accts) |-> 0],
-            totLocked |-> 0, totLockedDen |-> g.ent.denom, totSpent |-> 0],
-   wrk |-> RegInit(g.wrk), bcn |-> RegInit(g.bcn),
-   str |-> [p |-> [feeNum |-> g.str.feeNum, feeDen |-> g.str.feeDen], s |-> <<>>],
-   aux |-> [props |-> <<>>, nextProp |-> 1]]
-
 Init == st = StateOf(Gen) /\ phase = "idle" /\ hist = <<[a |-> "InitChain", g |-> Gen]>> /\ nTx = 0 /\ nFail = 0
 
-Tx(msgs) == [a |-> "DeliverTx", msgs |-> msgs]
-GovTx(p) == Tx(<< [t |-> "GovProp", proposer |-> "V",
-                   msgs |-> << [t |-> "UpdParams", mod |-> "ent", authority |-> "gov", p |-> p] >>],
-                  [t |-> "Vote", voter |-> "V", id |-> st.aux.nextProp] >>)
+GovTx(p) == GovTxFor(st, "ent", p)
 
 TxAlphabet ==
      { Tx(<<[t |-> "Raise", pur |-> a, amt |-> n, denom |-> "nund"]>>) : a \in AcctSet, n \in {3, 5} }
@@ -61,8 +42,6 @@ Do(ev, ph) ==
           /\ (r.ok \/ nFail < MaxFail)
      ELSE UNCHANGED <<nTx, nFail>>
 
-EndEv == [a |-> "EndBlock"]
-ComEv == [a |-> "Commit"]
 Next ==
   \/ /\ phase = "idle" /\ st.height < 2 + MaxHeight /\ ~st.halted
      /\ \E dt \in {0, 1000, 2000} : Do([a |-> "BeginBlock", dt |-> dt], "block")
